@@ -7,6 +7,7 @@ CONSTANTS Producers = {"p1", "p2"}
           Locks = TRUE
           RealTime = TRUE
           Disconnect = TRUE
+          FatalEvery = 0
           NMsgs = 2
           ScriptSet = {"reset", "quit"}
           Script2Set = {"none"}
